@@ -125,15 +125,16 @@ Definition impl_substring (fuel : nat) (cs : list N) (from count : Z) : outcome 
     | None => Ok rest
     end).
 
-(* PostgreSQL: characters at positions p with from <= p < from + count, positions start at 1;
-   a negative count is an error (None) *)
+(* characters at positions p with from <= p < from + count, positions start at 1 (PostgreSQL's
+   definition).  The 3-argument form is undocumented; a negative count is outside any documented
+   domain: '' is a definitional choice (the engine's total extension; PostgreSQL raises an error). *)
 Definition spec_substring_from (cs : list N) (from : Z) : list N :=
   dropN (Z.to_N (Z.max from 1 - 1)) cs.
-Definition spec_substring (cs : list N) (from count : Z) : option (list N) :=
-  if (count <? 0)%Z then None
+Definition spec_substring (cs : list N) (from count : Z) : list N :=
+  if (count <? 0)%Z then []
   else let s1 := Z.max from 1 in
        let e := (from + count)%Z in
-       Some (takeN (Z.to_N (e - s1)) (dropN (Z.to_N (s1 - 1)) cs)).
+       takeN (Z.to_N (e - s1)) (dropN (Z.to_N (s1 - 1)) cs).
 
 (* ---- lpad / rpad ---- *)
 (* while rem > 0 { buf.push_str(pad); rem -= pad_char_len; } *)
@@ -258,20 +259,27 @@ Fixpoint split_go (cs d cur : list N) (skip : nat) : list (list N) :=
   end.
 Fixpoint nth_list (l : list (list N)) (n : N) : list N :=
   match l with [] => [] | x :: r => if n =? 0 then x else nth_list r (n - 1) end.
-(* what split_part.rs does; PostgreSQL differs for n = 0 (error) and for an empty delimiter
-   with n = -1 (whole string) *)
+(* what split_part.rs does (after e3543b716) *)
 Definition impl_split_part (cs d : list N) (n : Z) : outcome (list N) :=
-  if is_nil d then Ok (if (n =? 1)%Z then cs else [])
+  if is_nil d then Ok (if (n =? 1)%Z || (n =? -1)%Z then cs else [])
   else if (0 <? n)%Z then Ok (nth_list (split_go cs d [] 0) (Z.to_N (n - 1)))
   else if (n <? 0)%Z then
-    (* s.rsplit(d).nth(n.unsigned_abs() - 1): searched from the end *)
-    Ok (nth_list (map (@rev N) (split_go (rev cs) (rev d) [] 0)) (Z.to_N (- n - 1)))
+    (* let n = n.unsigned_abs(); let count = s.split(d).count();
+       match count.checked_sub(n) { Some(idx) => s.split(d).nth(idx).unwrap_or(""), None => "" } *)
+    let parts := split_go cs d [] 0 in
+    let k := Z.to_N (Z.abs n) in
+    if lenN parts <? k then Ok [] else Ok (nth_list parts (lenN parts - k))
   else Ok [].
-Definition spec_split_part (cs d : list N) (n : Z) : option (list N) :=
-  if (n =? 0)%Z then None
-  else if is_nil d then Some (if (n =? 1)%Z || (n =? -1)%Z then cs else [])
-  else if (0 <? n)%Z then Some (nth_list (split_go cs d [] 0) (Z.to_N (n - 1)))
-  else Some (nth_list (rev (split_go cs d [] 0)) (Z.to_N (- n - 1))).
+(* the documented definition: "splits string at occurrences of delimiter and returns the n'th field
+   (counting from one), or when n is negative, returns the |n|'th-from-last field"; a field that does
+   not exist is ''; an empty delimiter makes the whole string the only field.  n = 0 is outside the
+   documented domain: '' is a definitional choice (the engine's total extension; PostgreSQL raises
+   an error there). *)
+Definition spec_split_part (cs d : list N) (n : Z) : list N :=
+  if (n =? 0)%Z then []
+  else if is_nil d then (if (n =? 1)%Z || (n =? -1)%Z then cs else [])
+  else if (0 <? n)%Z then nth_list (split_go cs d [] 0) (Z.to_N (n - 1))
+  else nth_list (rev (split_go cs d [] 0)) (Z.to_N (- n - 1)).
 
 (* ---- translate.rs as written: a map built with entry(c).or_insert_with(..), first entry wins ---- *)
 Fixpoint map_lookup (c : N) (m : list (N * option N)) : option (option N) :=
@@ -302,15 +310,23 @@ Section CaseMap.
   Definition impl_upper (cs : list N) : outcome (list N) := Ok (flat_map to_upper cs).
   Definition impl_lower (cs : list N) : outcome (list N) := Ok (flat_map to_lower cs).
   (* initcap.rs: `for c in s.chars() { if c.is_alphabetic() { .. } else { push(c);
-       capitalize_next = c.is_whitespace() || c == '-' || c == '_' || c == '.' || c == ',' } }` *)
-  Definition is_sep (c : N) : bool := is_space c || (c =? 45) || (c =? 95) || (c =? 46) || (c =? 44).
+       capitalize_next = !c.is_alphanumeric() } }` *)
+  Variable is_alnum : N -> bool.
   Fixpoint initcap_go (cap_next : bool) (cs : list N) : list N :=
     match cs with
     | [] => []
     | c :: r => if is_alpha c then (if cap_next then to_upper c else to_lower c) ++ initcap_go false r
-                else c :: initcap_go (is_sep c) r
+                else c :: initcap_go (negb (is_alnum c)) r
     end.
   Definition impl_initcap (cs : list N) : outcome (list N) := Ok (initcap_go true cs).
+  (* before 900b19af8: a new word only after whitespace, '-', '_', '.', ','; kept for the regression witness *)
+  Definition is_sep (c : N) : bool := is_space c || (c =? 45) || (c =? 95) || (c =? 46) || (c =? 44).
+  Fixpoint old_initcap_go (cap_next : bool) (cs : list N) : list N :=
+    match cs with
+    | [] => []
+    | c :: r => if is_alpha c then (if cap_next then to_upper c else to_lower c) ++ old_initcap_go false r
+                else c :: old_initcap_go (is_sep c) r
+    end.
 End CaseMap.
 
 Definition ascii_upper (c : N) : N := if (97 <=? c) && (c <=? 122) then c - 32 else c.
@@ -323,7 +339,9 @@ Definition up1 (c : N) : list N := [ascii_upper c].
 Definition lo1 (c : N) : list N := [ascii_lower c].
 Definition upper_ascii (cs : list N) : outcome (list N) := impl_upper up1 cs.
 Definition lower_ascii (cs : list N) : outcome (list N) := impl_lower lo1 cs.
-Definition initcap_ascii (cs : list N) : outcome (list N) := impl_initcap up1 lo1 ascii_alpha ascii_space cs.
+Definition ascii_alnum (c : N) : bool := ascii_alpha c || ascii_digit c.
+Definition initcap_ascii (cs : list N) : outcome (list N) := impl_initcap up1 lo1 ascii_alpha ascii_alnum cs.
+Definition old_initcap_ascii (cs : list N) : outcome (list N) := Ok (old_initcap_go up1 lo1 ascii_alpha ascii_space true cs).
 (* definitions: upper / lower map letter by letter; initcap (PostgreSQL): first letter of each word
    upper case, the rest lower case, words = maximal runs of alphanumeric characters *)
 Definition spec_upper_ascii (cs : list N) : list N := map ascii_upper cs.
@@ -335,9 +353,6 @@ Fixpoint spec_initcap_go (prev_alnum : bool) (cs : list N) : list N :=
               :: spec_initcap_go (ascii_alpha c || ascii_digit c) r
   end.
 Definition spec_initcap_ascii (cs : list N) : list N := spec_initcap_go false cs.
-(* the separators initcap.rs knows: everything that is not alphanumeric must be one of them *)
-Definition initcap_seps_known (cs : list N) : bool :=
-  forallb (fun c => ascii_alpha c || ascii_digit c || is_sep ascii_space c) cs.
 
 (* The transcriptions as they were before the fixes 0e7aca77d (lpad/rpad), 5eee47bd9 (substring),
    16bd2d89d (left/right): kept only for the regression witnesses in proofs/StrFnProofs.v. *)
